@@ -433,6 +433,7 @@ fn main() {
         Some("c19long") => {
             let a = &args[2..];
             simlong::run(
+                &arg(a, "--prop").unwrap_or_else(|| "C19".to_string()),
                 arg(a, "--seed").map(|s| s.parse().unwrap()).unwrap_or(1),
                 arg(a, "--n").map(|s| s.parse().unwrap()).unwrap_or(4),
                 &arg(a, "--out").expect("--out"),
